@@ -6,20 +6,20 @@
 /// Check for `assertion`: "assertion failed: le(best.f, batch[idx].f)"
 
 #[test]
-fn kani_concrete_playback_c08_greedy_add_all_step_667929383616006985() {
+fn kani_concrete_playback_c08_greedy_add_all_step_9498392029691900043() {
     let concrete_vals: Vec<Vec<u8>> = vec![
-        // 1
-        vec![1],
-        // 256
-        vec![0, 1],
+        // 0
+        vec![0],
+        // -510
+        vec![2, 254],
         // 3ul
         vec![3, 0, 0, 0, 0, 0, 0, 0],
-        // 1
-        vec![1, 0],
-        // 0
-        vec![0, 0],
-        // -1
-        vec![255, 255],
+        // -510
+        vec![2, 254],
+        // -511
+        vec![1, 254],
+        // -511
+        vec![1, 254],
     ];
     kani::concrete_playback_run(concrete_vals, c08_greedy_add_all_step);
 }
@@ -29,20 +29,20 @@ fn kani_concrete_playback_c08_greedy_add_all_step_667929383616006985() {
 /// Check for `cover`: "improved-by-batch"
 
 #[test]
-fn kani_concrete_playback_c08_greedy_add_all_step_8223237342001172630() {
+fn kani_concrete_playback_c08_greedy_add_all_step_11923552793560146811() {
     let concrete_vals: Vec<Vec<u8>> = vec![
         // 1
         vec![1],
-        // 1
-        vec![1, 0],
+        // -48
+        vec![208, 255],
         // 3ul
         vec![3, 0, 0, 0, 0, 0, 0, 0],
-        // 384
-        vec![128, 1],
-        // -1
-        vec![255, 255],
-        // 1
-        vec![1, 0],
+        // 32767
+        vec![255, 127],
+        // -2
+        vec![254, 255],
+        // -1665
+        vec![127, 249],
     ];
     kani::concrete_playback_run(concrete_vals, c08_greedy_add_all_step);
 }
@@ -52,20 +52,20 @@ fn kani_concrete_playback_c08_greedy_add_all_step_8223237342001172630() {
 /// Check for `cover`: "batch-not-better"
 
 #[test]
-fn kani_concrete_playback_c08_greedy_add_all_step_3883191128126479047() {
+fn kani_concrete_playback_c08_greedy_add_all_step_2675332283984453863() {
     let concrete_vals: Vec<Vec<u8>> = vec![
         // 1
         vec![1],
-        // -1007
-        vec![17, 252],
+        // -32767
+        vec![1, 128],
         // 3ul
         vec![3, 0, 0, 0, 0, 0, 0, 0],
-        // 384
-        vec![128, 1],
-        // -773
-        vec![251, 252],
-        // 1
-        vec![1, 0],
+        // -32767
+        vec![1, 128],
+        // -32767
+        vec![1, 128],
+        // -32767
+        vec![1, 128],
     ];
     kani::concrete_playback_run(concrete_vals, c08_greedy_add_all_step);
 }
